@@ -1166,6 +1166,8 @@ impl<T> Receiver<T> {
             }
             // no active waiter so push to the queue
             let mut ret = MaybeUninit::<T>::uninit();
+            #[cfg(kanal_verif)]
+            crate::verif::owner_slot(ret.as_ptr(), 2);
             let sig = Signal::new_sync(KanalPtr::new_write_address_ptr(ret.as_mut_ptr()));
             internal.push_recv(sig.get_terminator());
             drop(internal);
@@ -1214,6 +1216,8 @@ impl<T> Receiver<T> {
             }
             // no active waiter so push to the queue
             let mut ret = MaybeUninit::<T>::uninit();
+            #[cfg(kanal_verif)]
+            crate::verif::owner_slot(ret.as_ptr(), 2);
             let sig = Signal::new_sync(KanalPtr::new_write_address_ptr(ret.as_mut_ptr()));
             internal.push_recv(sig.get_terminator());
             drop(internal);
